@@ -22,7 +22,7 @@ def sh(cmd, cwd, timeout=1500):
 
 
 def failing(out):
-    return sorted(set(re.findall(r"^--- FAIL: (\S+)", out, re.M)) | set("PKG " + m for m in re.findall(r"^FAIL\s+(\S+)\s+\[build failed\]", out, re.M)))
+    return sorted(set(re.findall(r"--- FAIL: (\S+)", out)) | set("PKG " + m for m in re.findall(r"^FAIL\s+(\S+)\s+\[build failed\]", out, re.M)))
 
 
 def main():
